@@ -117,12 +117,15 @@ impl Ctx {
     }
 
     fn on_panic(&mut self, c: &Case, p: &PanicRec) {
-        if is_alloc_panic(&p.msg) {
+        let reserve_case = c.apis.iter().any(|a| a == INFINITE_COLLECT);
+        if is_alloc_panic(&p.msg) && !reserve_case {
             // gigantic allocation: outside the property
             self.alloc_panics += 1;
             return;
         }
-        let site = self.resolver.site(p);
+        // a collector on an infinite iterator: "capacity overflow" there means that the size hint was
+        // reserved before any value was pulled — a panic of the runtime, not a requested allocation
+        let site = if is_alloc_panic(&p.msg) { Site { file: "<alloc>".into(), function: "capacity-overflow".into() } } else { self.resolver.site(p) };
         let key = format!("{}::{} [{}]", site.file, site.function, short_msg(&p.msg));
         *self.sites_seen.entry(key.clone()).or_insert(0) += 1;
         {
@@ -254,6 +257,15 @@ fn explore(cx: &mut Ctx, rng: &mut Rng) {
         cx.run_cases(chunk.to_vec());
     }
     drop(both);
+    // ---- (i) collectors on infinite iterators: own batch, short limit, no retry ----------------------
+    {
+        let mut cases: Vec<Case> = vec![];
+        let mut sink = |c: Case| cases.push(c);
+        infinite_collect_cases(thorough, &mut sink);
+        eprintln!("[c06] infinite-collect cases: {}", cases.len());
+        let outs = cx.pool.run_opts(&cases, Duration::from_millis(1200), false);
+        cx.process(&cases, &outs);
+    }
     // ---- (a) compile / format / Display --------------------------------------------------------
     let sources = corpus_sources();
     cx.rep.extra.insert("corpus_sources".into(), json!(sources.len()));
@@ -369,7 +381,7 @@ fn replay_known(cx: &mut Ctx) {
             if let Some(ps) = v["p"].as_array() {
                 for pj in ps {
                     let p = panic_from_json(pj);
-                    let site = cx.resolver.site(&p);
+                    let site = if is_alloc_panic(&p.msg) { Site { file: "<alloc>".into(), function: "capacity-overflow".into() } } else { cx.resolver.site(&p) };
                     if k.matches_site(&site, &p.msg) {
                         hit = true;
                     } else {
